@@ -30,6 +30,12 @@ fn main() {
         "layout" => cmd_simple(&args, "layout"),
         "fwd" => cmd_simple(&args, "fwd"),
         "containers" => cmd_simple(&args, "containers"),
+        "threads" => cmd_simple(&args, "threads"),
+        "teardown" => cmd_simple(&args, "teardown"),
+        "teardown-child" => {
+            let c: rccv::threads::DCase = serde_json::from_str(args.get(2).map(|s| s.as_str()).unwrap_or("{}")).expect("teardown case");
+            rccv::threads::teardown_child(&c)
+        }
         "features" => {
             println!(
                 "finalization={} weak-ptrs={} cleaners={} auto-collect={} debug_assertions={}",
@@ -148,7 +154,7 @@ fn cmd_simple(args: &[String], engine: &str) -> i32 {
     if let Some(r) = replay_out {
         rccv::crash::install(r);
     }
-    KIND.with(|k| k.set(match engine { "policy" => "policy", "limits" => "limits", "fwd" => "fwd", "containers" => "containers", "layout" => "layout", "threads" => "threads", _ => "heap" }));
+    KIND.with(|k| k.set(match engine { "policy" => "policy", "limits" => "limits", "fwd" => "fwd", "containers" => "containers", "layout" => "layout", "threads" => "threads", "teardown" => "teardown", _ => "heap" }));
     let (code, mut report) = match engine {
         "policy" => {
             let max_ops: usize = arg(args, "--max-ops").and_then(|s| s.parse().ok()).unwrap_or(60);
@@ -197,6 +203,22 @@ fn cmd_simple(args: &[String], engine: &str) -> i32 {
             let r = rccv::containers::run_on_thread(c, log);
             let classes = vec![format!("{:?}", c.shape).split('(').next().unwrap().to_string()];
             SimpleOut { nontrivial: r.cycle_reclaimed, violations: r.violations, hash: c.hash64(), classes }
+        }),
+        "threads" => drive(&prop, engine, &cfg_name, cases, seed, rccv::threads::strategy(), &known, replay_out, |c: &rccv::threads::TCase, _log| {
+            persist(&prop, &cfg_name, c);
+            let r = rccv::threads::run(c);
+            let mut classes = vec![format!("threads-{}", r.threads)];
+            if r.overlapped_collections { classes.push("overlapping-collections".to_string()); }
+            SimpleOut { nontrivial: r.overlapped_collections, violations: r.violations, hash: c.hash64(), classes }
+        }),
+        "teardown" => drive(&prop, engine, &cfg_name, cases, seed, rccv::threads::teardown_strategy(), &known, replay_out, |c: &rccv::threads::DCase, _log| {
+            let v = rccv::threads::run_teardown(c);
+            let mut classes = Vec::new();
+            if c.garbage_cycles > 0 { classes.push("garbage-buffered-at-exit".to_string()); }
+            if c.slots.iter().any(|s| s.before_collector && !s.contents.is_empty()) { classes.push("user-tls-outlives-collector".to_string()); }
+            if c.slots.iter().any(|s| !s.before_collector && !s.contents.is_empty()) { classes.push("user-tls-destroyed-first".to_string()); }
+            let nontrivial = c.garbage_cycles > 0 || c.slots.iter().any(|s| !s.contents.is_empty());
+            SimpleOut { nontrivial, violations: v, hash: c.hash64(), classes }
         }),
         _ => (2, json!({})),
     };
@@ -251,6 +273,14 @@ fn replay_simple(kind: &str, prop: &str, v: &serde_json::Value, path: &str) -> i
         "containers" => {
             let c: rccv::containers::CCase = serde_json::from_value(v["case"].clone()).expect("case");
             rccv::containers::run_on_thread(&c, true).violations
+        }
+        "threads" => {
+            let c: rccv::threads::TCase = serde_json::from_value(v["case"].clone()).expect("case");
+            rccv::threads::run(&c).violations
+        }
+        "teardown" => {
+            let c: rccv::threads::DCase = serde_json::from_value(v["case"].clone()).expect("case");
+            rccv::threads::run_teardown(&c)
         }
         "fwd" => {
             let c: rccv::fwd::FCase = serde_json::from_value(v["case"].clone()).expect("case");
